@@ -245,9 +245,7 @@ def check_pure_flux(ck, repo):
         ck.analysed["paths"] += len(outs)
         sck = ck.scoped("mode=%s" % mode)
         if pi is None:
-            sck.ob("M5", f.qualname, "both permeate temperature and pressure -> raise", f.loc(),
-                   bool(outs) and all(o.kind == "raise" and o.exc.exc_type == "ValueError" for o in outs))
-            continue
+            continue   # rejecting the double specification is C19's obligation
         ok1 = len(outs) == 1 and outs[0].kind == "return" and isinstance(outs[0].value, Num)
         sck.ob("M5", f.qualname, "mode %s selects one non-raising arm" % mode, f.loc(), ok1)
         if not ok1:
